@@ -1,7 +1,9 @@
 """C12 — width-independent updates: one Adam step moves every output by exactly lr."""
 from __future__ import annotations
 
+import copy
 import math
+import pickle
 from collections import OrderedDict
 from typing import Any, List
 
@@ -49,8 +51,12 @@ def run(ctx: Ctx) -> None:
         eta = math.exp(rng.uniform(math.log(1e-4), 0.0))
         opt_name = rng.choice(["Adam", "AdamW"])
         default_c = rng.random() < 0.5
+        # how the trained object came to be: fresh; layers cloned from a template (as in stacks built with deepcopy);
+        # the finished container deep-copied or pickled before training (checkpoint / EMA copy)
+        built = rng.choice(["fresh", "fresh", "cloned-layers", "copied-container", "cloned+copied", "pickled-container"]) \
+            if depth and fi * fo * k <= 200_000 else "fresh"
         key = {"layer": kind, "fan_in": fi, "fan_out": fo, "kernel": k, "depth": depth, "container": container,
-               "eta": eta, "optimizer": opt_name, "constraint": "default" if default_c else None}
+               "eta": eta, "optimizer": opt_name, "constraint": "default" if default_c else None, "built": built}
         ctx.count(key, bucket=f"{kind}/{container or 'standalone'}")
 
         def mk():
@@ -67,6 +73,8 @@ def run(ctx: Ctx) -> None:
                 layer = mk()
             else:
                 layers = [mk()] + [uu.Linear(2, 2) for _ in range(depth - 1)]
+                if built in ("cloned-layers", "cloned+copied"):
+                    layers = [copy.deepcopy(m) for m in layers]
                 rng.shuffle(layers)
                 if container == "seq_args":
                     cont = uu.DepthSequential(*layers)
@@ -74,6 +82,10 @@ def run(ctx: Ctx) -> None:
                     cont = uu.DepthSequential(OrderedDict((f"l{i}", m) for i, m in enumerate(layers)))
                 else:
                     cont = uu.DepthModuleList(layers)
+                if built in ("copied-container", "cloned+copied"):
+                    cont = copy.deepcopy(cont)
+                elif built == "pickled-container":
+                    cont = pickle.loads(pickle.dumps(cont))
                 layer = [m for m in cont if (m.weight.shape[0], m.weight.shape[1]) == (fo, fi) and
                          type(m).__name__ == kind and (kind != "Conv1d" or m.weight.shape[2] == k)][0]
             layer = layer.to(dt)
